@@ -1,10 +1,11 @@
 SPECIFICATION SimSpec
 CONSTANTS
   Users = {"a", "b", "c"}
-  Contracts = {"x", "y", "s"}
+  Contracts = {"x", "y", "s", "e"}
   Hangers = {"z"}
   Ghosts = {"g"}
   SyncContracts = {"s"}
+  EEContracts = {"e"}
   Keys = {"k1", "k2"}
   Prices = {0, 1, 2}
   DefaultCost = 2
